@@ -67,7 +67,7 @@ class Facts(object):
                 if v in (2, 3, 4):
                     self.restrict(c[1][2], Iv(-MAXF, MAXF, False))
                 continue
-            self.add(c, bool(v)) if tag(c) in ("cmp", "call", "not") else None
+            self.add(c, bool(v)) if tag(c) in ("cmp", "call", "not", "i") else None
 
     def restrict(self, t, iv):
         cur = self.env.get(t)
@@ -99,6 +99,10 @@ class Facts(object):
                 if not lo.nan and not hi.nan:
                     self.restrict(mk("field", c[3], 0), Iv(lo.lo, hi.hi, False))
             return
+        if tg == "i" and c[1] == "sub_ovf" and c[2] in vg.INT_BITS and c[2].startswith("u") and len(c) == 5:
+            # unsigned x - y wraps exactly when x < y
+            self._rel("lt" if val else "ge", c[2], c[3], c[4], negated_float=False)
+            return
         if tg != "cmp":
             return
         op, ty, a, b = c[1], c[2], c[3], c[4]
@@ -114,6 +118,12 @@ class Facts(object):
         step = 0 if isf else 1
         for x, y, o in ((a, b, op), (b, a, {"lt": "gt", "le": "ge", "gt": "lt", "ge": "le", "eq": "eq", "ne": "ne"}[op])):
             if tag(y) != "const":
+                if not isf and ty in vg.INT_BITS and tag(x) != "const":
+                    # against another integer term: through that term's own interval
+                    by = self.bounds(y)
+                    iv = {"lt": Iv(-INF, by.hi - 1), "le": Iv(-INF, by.hi), "gt": Iv(by.lo + 1, INF), "ge": Iv(by.lo, INF), "eq": Iv(by.lo, by.hi)}.get(o)
+                    if iv is not None and not (iv.lo == -INF and iv.hi == INF):
+                        self.restrict(x, iv)
                 continue
             cv = f64v(y) if isf else (vg.to_signed(ty, y[2]) if ty in vg.INT_BITS else y[2])
             if isf and cv != cv:
@@ -274,6 +284,9 @@ class Facts(object):
                 return Iv(lo, max(abs(a.lo), abs(a.hi)))
             if n == "len" or n.endswith("::len"):
                 return Iv(0, INF)
+            mz = re.match(r"^core::num::<impl ([iu]\d+|[iu]size)>::(leading_zeros|trailing_zeros|count_ones|count_zeros)$", n)
+            if mz and mz.group(1) in vg.INT_BITS and len(t) == 3:
+                return Iv(0, vg.INT_BITS[mz.group(1)])
             return Iv(-INF, INF, True)
         return Iv(-INF, INF, True)
 
@@ -365,6 +378,12 @@ class Facts(object):
                 a = self.bounds(c[2])
                 if a.hi < 0: return True
                 if a.lo >= 0: return False
+            # the two sign queries are complements of each other (f64: the sign bit; TwoFloat: C06 / R12d)
+            for pos, neg_ in (("TwoFloat::is_sign_positive", "TwoFloat::is_sign_negative"), ("core::f64::<impl f64>::is_sign_positive", "core::f64::<impl f64>::is_sign_negative")):
+                if c[1] in (pos, neg_) and len(c) == 3:
+                    other = self.known.get(mk("call", neg_ if c[1] == pos else pos, c[2]))
+                    if other is not None and type(other) is not tuple:
+                        return not bool(other)
             if c[1].startswith("core::ops::RangeInclusive::<Idx>::contains<") and len(c) == 4 and tag(c[2]) == "call" \
                     and c[2][1].startswith("core::ops::RangeInclusive::<Idx>::new<") and len(c[2]) == 4:
                 m = re.match(r"^core::ops::RangeInclusive::<Idx>::contains<(\w+),(\w+)>$", c[1])
@@ -454,9 +473,18 @@ class Hooks(object):
 
     def decide(self, ex, st, c):
         try:
-            return self._facts(st).decide(c)
+            r = self._facts(st).decide(c)
         except Exception:
-            return None
+            r = None
+        if r is None and tag(c) == "i" and c[1].endswith("_ovf"):
+            # the overflow test of a checked_* operation: the reviewed arguments that discharge the same operation written
+            # with a plain operator (an overflow assertion) apply to it as well
+            try:
+                if self.linked_lookup(None, "Overflow", c, st):
+                    return False
+            except Exception:
+                pass
+        return r
 
     def force_inline(self, callee, st):
         return False
